@@ -250,6 +250,7 @@ PROPS["C18"]["level_text"] = (
     "text), the sorting mode writes a permutation of the spans; tied to go/pdata/traces by op-for-op differential runs in both modes.")
 
 
+
 HOOK_COMMITS = ["dfe47e0", "f85f827"]
 NOT_CLAIMED = {
     "C11": ("byte equality between checked-in files and the output of text/template + gofmt (and the Java templates): "
@@ -426,3 +427,62 @@ PROPS["C08"]["harness"].append({"bin": "h_codec", "args": ["limits"]})
 PROPS["C03"]["harness"].append({"bin": "h_codec", "args": ["hostile"]})
 
 PROPS["C09"]["needs_gen"] = ["Funcs"]
+
+HGEN_TB = CODEC_TB + [
+    "lib/hgen.py + harness/cmd/h_gen (schema generator, append-only evolver, driver template) + harness/hgenlib (driver "
+    "logic over the PUBLIC API of the generated packages via reflection); stefc is built from the repository's working tree, "
+    "every schema is first accepted by the repository's own idl parser",
+    "go build of each generated package in a temporary module (replace => the repository's go/pkg)",
+]
+
+PROPS["C10"] = {
+    "lean_modules": ["Stef.Props.C10"],
+    "harness": [],
+    "runner": "hgen", "runner_args": ["c10"], "oracle_prefixes": ["sd decode"],
+    "rule": ("cases = schemas drawn from VERIF_SEED by harness/cmd/h_gen (1..3 roots, <= 10 types x <= 6 fields: structs with "
+             "dict modifier, oneofs, multimaps with primitive/struct/oneof/array/multimap keys and values, arrays of "
+             "primitives/enums/structs/oneofs/multimaps, enums, optional primitive and composite fields, string/bytes "
+             "dictionaries shared between fields, self and mutual recursion through array, multimap key/value, oneof "
+             "alternative and optional field; quick 4 + stefc's all_features.stef, thorough 60 + 8 of stefc's test schemas; shapes "
+             "for which stefc is KNOWN to emit code that does not compile or does not round-trip are removed by the generator's "
+             "sanitize pass and triggered deliberately instead: 10 fixed tiny 'hazard' schemas, 5 fixed schemas with scripted "
+             "histories), "
+             "each accepted by the repository's idl parser, generated by stefc built from the tree, compiled, and driven by "
+             "type-directed histories (recgen: wide value distributions, frame/dict limits, restart flags, none/zstd): the "
+             "generated reader AND the Lean specification decoder must return the records set; a case is a history or a build; non-trivial = history with >= 2 "
+             "records and a top-level field left unmodified in some record; distinct by hash of the records"),
+    "trusted_base": HGEN_TB,
+    "assumptions": ["'the generated package compiles' and 'generated code = model instantiated at the schema' are observed "
+                    "per drawn schema, not proved (template text is not translated)",
+                    "the mutator avoids the known C01-family defects of the generated record API (double reveal, -0.0, "
+                    "setter-clone-unlinked, stale parent links after reallocation); they are triggered by scripted cases"],
+    "level_text": ("PARTIAL. Lean: the C01 round-trip theorem restated with the field count and the primitive codec as parameters "
+                   "(roundtrip_generic, _int, _float); the specification decoder is generic in the schema. The template text of "
+                   "stefc is NOT translated: that generated code is the model instantiated at a schema, and that it compiles, is "
+                   "only observed on the drawn schemas (compile, run, Lean decoder as independent oracle on every stream)."),
+}
+
+PROPS["C04"] = {
+    "lean_modules": ["Stef.Props.C04"],
+    "harness": [],
+    "runner": "hgen", "runner_args": ["c04"], "oracle_prefixes": ["sd decode"],
+    "rule": ("cases = pairs (A, B) where B is A plus 1..4 fields appended to the end of random structs/oneofs (primitives, "
+             "optional primitives, dict strings, existing struct/oneof/multimap types, arrays, NEW struct/oneof/multimap types "
+             "that insert entries in the middle of the depth-first count list), both generated by stefc into one temporary "
+             "module (quick 3 + 1 fixed pair, thorough 40 + 1); per root: forward (A writer with descriptor -> B reader = A "
+             "records extended with B defaults; Lean decoder with schema B on the same bytes), downgrade (B writer with "
+             "WriterOptions.Schema = A's wire schema -> A reader = records restricted to A, unknown oneof choices none; two "
+             "generator streams: without / with optional fields that A lacks), refuse (B stream with descriptor and a crafted "
+             "same-length same-total descriptor -> A reader must return an error); a case is a history; non-trivial = the "
+             "expected record differs from the written one (forward/downgrade) or a refusal; distinct by hash"),
+    "trusted_base": HGEN_TB + ["hgenlib.extendDump / restrictDump: structural maps between dumps of the two schema versions"],
+    "assumptions": ["the generic theorem init_with_override (B's traversal under A's counts = A's traversal) is NOT proved; "
+                    "interoperability is decided per pair by the cross-package runs with the Lean decoder as oracle",
+                    "a compile failure of a pair is reported under C10 and the pair is skipped here"],
+    "level_text": ("PARTIAL. Lean: theorems about one step of the descriptor-driven traversal of the specification decoder "
+                   "(fetch_consumes, refuse, fetch_again, fetch_twice, fetch_own). forward / downgrade / refuse for all "
+                   "pairs are NOT proved; they are evaluated on code generated for both versions, both directions, with the "
+                   "Lean decoder as independent oracle. downgrade is FALSE on the current code (known finding "
+                   "downgrade-presence-overflow)."),
+}
+
